@@ -41,18 +41,14 @@ def convert_captured(text, extra_args=()):
         cap['matching'] = dic_surface_t4.number_items()[1]
         conv = cap.get('conv')
         if conv is not None:
-            cap['cnt'] = conv.new_cell_key
-            cap['sc'] = sorted((int(k), int(v)) for k, v in
-                               conv.convert_surface_cache.items())
-            cap['cc'] = sorted((int(k), int(v)) for k, v in
-                               conv.convert_cellref_cache.items()
-                               if v is not None)
+            cap['cnt'] = getattr(conv, 'new_cell_key', None)
+            cap['sc'], cap['cc'] = G.read_caches(conv)
         return out
 
     def pc(self, cell, matching, union_ids):
         if 'conv' not in cap:
             cap['conv'] = self
-            cap['cnt0'] = self.new_cell_key
+            cap['cnt0'] = getattr(self, 'new_cell_key', None)
         return orig_pc(self, cell, matching, union_ids)
 
     def rn(volus, renumbering):
@@ -225,6 +221,19 @@ def with_facets(rng, expr, modes):
     return expr
 
 
+def renumber_surface(cells, old, new):
+    def walk(e):
+        if e[0] == 's' and abs(e[1]) == old:
+            return ('s', new if e[1] > 0 else -new)
+        if e[0] == 'f' and abs(e[1]) == old:
+            return ('f', new if e[1] > 0 else -new, e[2])
+        if e[0] in ('*', ':', '#'):
+            return (e[0],) + tuple(walk(k) for k in e[1:])
+        return e
+    for c in cells:
+        c['expr'] = walk(c['expr'])
+
+
 def has_facet(expr):
     return expr[0] == 'f' or (expr[0] in ('*', ':', '#')
                               and any(has_facet(e) for e in expr[1:]))
@@ -311,6 +320,15 @@ def gen_deck(rng):
             c['expr'] = with_facets(rng, c['expr'], modes)
             if rng.random() < 0.3 and has_facet(c['expr']) and plain(c['expr']):
                 c['expr'] = ('#', negate_expr(c['expr']))
+    # an EXPLICITLY defined surface whose number looks like an implicit TRCL
+    # surface (1000*cell + surface, both existing): it must keep its own
+    # definition
+    if rng.random() < 0.35 and len(surfaces) >= 2:
+        victim, other = rng.sample(surfaces, 2)
+        if victim['id'] < 1000 and other['id'] < 1000:
+            new_id = 1000 * rng.choice([c['id'] for c in cells]) + other['id']
+            renumber_surface(cells, victim['id'], new_id)
+            victim['id'] = new_id
     # universes: one or two level-0 cells filled with the same universe
     if rng.random() < 0.45:
         n2 = rng.randint(2, 5)
@@ -429,6 +447,11 @@ CORPUS = [
                cell(2, ('*', S(-30), (':', ('f', 10, 1), ('f', 10, 3)))),
                cell(3, S(30), imp=0)],
      'surfaces': [surf(10, 'rpp', -1, 1, -1, 1, -1, 1), surf(30, 'so', 5)],
+     'transforms': {}, 'materials': {}, 'data': []},
+    # an explicit surface 1005 while cell 1 and surface 5 exist
+    {'title': 'explicit surface numbered like an implicit one',
+     'cells': [cell(1, S(-1005)), cell(2, ('*', S(1005), S(-5))), cell(3, S(5), imp=0)],
+     'surfaces': [surf(5, 'so', 4), surf(1005, 'so', 2)],
      'transforms': {}, 'materials': {}, 'data': []},
 ]
 
@@ -550,6 +573,8 @@ def check_deck(res, deck, text, rng, coq_cases, metas, args=(), trace=True):
     # ---- tie on the captured data ----
     try:
         case = case_of_capture(cap)
+        if case['cnt0'] is None:
+            raise Unsupported('counter attribute not present')
     except (Unsupported, KeyError) as exc:
         res.count('deck:tie-skipped')
         return
